@@ -7,7 +7,9 @@ from vf.monitors import algos
 PROP = "C06"
 TECHNIQUE = ('runtime monitoring: partition / consensus / flag of ParCons with a recording proxy as auxiliary algorithm, judged against the DP optimum restricted to the partition vs the global optimum')
 RULE = ("cases = dataset (D7, D9, D10 first: sparse rankings missing a whole component, >= 3 components; D2-D4, D8; n<=8 "
-        "quick, <=10 thorough) x scheme (S1-S3, S6; B[5] != T[5] often) x ParCons configuration (bound_for_exact in "
+        "quick, <=10 thorough; 8 % of the cases: 11-24 (thorough: -40) elements in ordered blocks judged by the composite "
+        "oracle ref.BlockOptimum, applied only when the cost table shows 'before' to be a cheapest placement of every "
+        "cross-block pair) x scheme (S1-S3, S6; B[5] != T[5] often) x ParCons configuration (bound_for_exact in "
         "{0,2,3,80}, auxiliary BioConsert/KwikSort/Copeland/BioCo wrapped in a recording proxy) x CPLEX absent / stand-in; "
         "oracle = subset DP (optimum restricted to rankings respecting the partition vs global optimum); non-trivial = "
         ">= 3 groups in the partition or a component of size >= 3 solved; distinct = digest of (dataset, scheme, config)")
@@ -36,6 +38,27 @@ def gen_case(rng, ctx):
     gen.OUTLIER["n_only_up_to"] = 10      # the exact oracle limits the number of elements; rankings are not limited
     thorough = ctx.tier == "thorough"
     nmax = (10 if rng.random() < 0.15 else 8) if thorough else (8 if rng.random() < 0.3 else 7)
+    if rng.random() < 0.08:
+        # beyond the subset DP: 11-40 elements in ordered blocks of 1-5, judged by the composite oracle ref.BlockOptimum
+        # (which decides on the cost table whether its decomposition argument applies)
+        n = rng.choice([11, 12, 14, 16, 20, 24, 30, 40] if thorough else [11, 12, 13, 14, 16, 20, 24])
+        ds, blocks = gen.block_dataset(rng, n)
+        ei = ref.expected_type_is_int(ds)
+        ds = libx.normalise_raw(ds)
+        blocks = [[libx.lib_value(e, ei) for e in b] for b in blocks]
+        scls, sch = gen.scheme(rng, "S1 S1 S2 S3 S3 S6 S11")
+        return {"ds": ds, "scheme": sch, "dcls": "blocks", "scls": scls, "blocks": blocks, "bound": rng.choice([0, 2, 3, 3, 80]),
+                "aux": rng.choice(AUX), "libseed": rng.randrange(10 ** 6),
+                "other": rng.choice(OTHERS if n <= 14 else [o for o in OTHERS if o not in ("Pulp", "Exact")])}
+    if rng.random() < 0.18:
+        # components that some voters tie, some order and some miss entirely, under schemes whose two penalties for a pair
+        # of unranked elements differ: the sub-problem of a component must keep counting the voters that miss it
+        cls, ds = gen.dataset(rng, cls="D23", n=rng.choice([4, 5, 6, 7, 8] if thorough else [4, 5, 6, 7]), mmax=6)
+        ds = libx.normalise_raw(ds)
+        scls, sch = gen.scheme(rng, "S15 S15 S15 S13 S1")
+        ctx.count("gen:D23xS15")
+        return {"ds": ds, "scheme": sch, "dcls": "D23", "scls": scls, "bound": rng.choice([0, 2, 3, 80, 80]),
+                "aux": rng.choice(AUX), "libseed": rng.randrange(10 ** 6), "other": rng.choice(OTHERS)}
     if rng.random() < 0.4:
         # several non-trivial components of different sizes (blocks of 3 and 4 with pure rotations), bound between the sizes:
         # some components go to the auxiliary algorithm, others to the exact solver, in both orders
@@ -82,7 +105,17 @@ def check_case(case, ctx):
     scheme = libx.mk_scheme(sch)
     elems = ref.universe(ds)
     n = len(elems)
-    dp = ref.optimum_dp(ds, sch, elems)
+    blocks = case.get("blocks")
+    strict_blocks = False
+    if blocks:
+        dp = ref.BlockOptimum(ds, sch, blocks)
+        if not dp.ok:
+            ctx.count("blocks_not_decomposable")
+            return
+        ctx.count("blocks_judged")
+        strict_blocks = dp.strict
+    else:
+        dp = ref.optimum_dp(ds, sch, elems)
     best = dp.value
     base = {"ds": ds, "scheme": sch}
     ctx.count("class:" + case.get("dcls", "?"))
@@ -99,7 +132,15 @@ def check_case(case, ctx):
                       observed=groups, expected=sorted(map(str, elems)))
         return
     restricted = dp.best_respecting(groups)
-    if restricted != best:
+    if restricted is None and not strict_blocks:
+        ctx.count("blocks_partition_undecided")
+    elif restricted is None:
+        # the partition inverts two blocks although 'earlier block before later block' is strictly cheapest on every
+        # cross pair: every optimal consensus is a concatenation in block order and cannot respect it
+        ctx.violation("C06/no-optimal-consensus-respects-partition",
+                      f"no optimal consensus respects the ParCons partition {groups}: it inverts two blocks of {blocks} "
+                      f"whose order is strictly cheapest on every cross pair", base, observed=groups, expected=blocks)
+    elif restricted != best:
         ctx.violation("C06/no-optimal-consensus-respects-partition",
                       f"no optimal consensus respects the ParCons partition {groups}: best respecting = "
                       f"{float(restricted)}, optimum = {float(best)}", base, observed=restricted, expected=best)
@@ -200,7 +241,8 @@ def reach(counters, tier, info):
                              "runs_mixing_exact_and_auxiliary_components", 10 * k),
                             ("consensuses flagged optimal", "flag_true", 200 * k),
                             ("consensuses not flagged optimal", "flag_false", 100 * k),
-                            ("flags of other algorithms read", "other_flags", 200 * k)]:
+                            ("flags of other algorithms read", "other_flags", 200 * k),
+                            ("datasets of 11+ elements judged by the composite block oracle", "blocks_judged", 30 * k)]:
         v = counters.get(key, 0) + (counters.get("groups:4", 0) if key == "groups:3" else 0)
         out.append({"name": name, "observed": v, "required": need, "ok": v >= need})
     return out
